@@ -255,6 +255,31 @@ TYPE_WRAP = None   # optional hook: fn(decl_text, t) -> text (used by C19 to put
 _AUTO = [0]
 
 
+def generic_header_wrap(decl, t):
+    """TYPE_WRAP hook: the same request as a generic type — `struct TyG<G, const N: usize> where G: Copy` with the first u8
+    field of type G — instantiated at <u8, 3> through a type alias, so the harness and oracle are unchanged while educe has
+    to carry type / const parameters, a where-clause and an automatic bound through the impl header."""
+    import re as _re
+    name = t.name
+    m = _re.search(r'pub (struct|enum) ' + name + r'\b', decl)
+    if not m or t.generics:
+        return decl
+    head = decl[:m.start()]
+    rest = decl[m.end():]
+    kind = m.group(1)
+    # first plain `u8` field becomes `G`
+    rest2, n = _re.subn(r'(\b(?:pub )?(?:\w+: )?)u8,', lambda mm: mm.group(1) + 'G,', rest, count=1)
+    if n == 0:
+        return decl
+    if kind == 'struct' and rest2.lstrip().startswith('('):
+        return decl     # a tuple struct cannot be constructed through a type alias
+    if kind == 'struct':
+        body = f'pub struct {name}G<G, const N: usize> where G: Copy' + rest2
+    else:
+        body = f'pub enum {name}G<G, const N: usize> where G: Copy' + rest2
+    return head + body + f'pub type {name} = {name}G<u8, 3>;\n'
+
+
 def render_type(t, sp=None):
     if sp is None:
         # no spelling requested: canonical spelling, but rotate where attributes foreign to educe stand
